@@ -428,6 +428,12 @@ def rand_blocks(rng, depth):
             arrangement.append([[a, b, 1] for a, b in c])
     spec = {'kind': 'blocks', 'shape': shape, 'children': children, 'arrangement': arrangement, 'fill': -7}
     spec['rev'], spec['trans'] = rand_orient(rng, ndim, 0.4, 0.3)
+    if ndim == 2 and rng.random() < 0.5:
+        # every combination of reversed axes with the transpose, uniformly (a reversal of exactly one axis together with the transpose is
+        # the case in which the raw -> formatted and the formatted -> raw conversions of an arrangement differ)
+        spec['rev'] = rng.choice([None, [0], [1], [0, 1]])
+        spec['trans'] = rng.choice([None, [1, 0]])
+    spec['basis'] = rng.choice(['raw', 'formatted'])      # how the arrangement is handed to the constructor (see SegBuilder.build)
     return spec
 
 
